@@ -32,6 +32,8 @@ RANDOM_EXTRA = [
     ("set_data", "wider", "shortnames", False), ("set_data", "wider", "dupnames", True), ("set_data", "df", None, False),
     ("insert", -99, "dup"), ("update_mn", "first", "all"), ("replace", 1, "dup"), ("insert", 1, "blank"),
     ("setitem_item", "first"), ("delete_ix", 1), ("inplace", "mid"), ("getmissing",),
+    ("update_both", 0, "all", "last"), ("update_both", -1, "meta", "first"), ("update_both", "mid", "data", "missing"), ("update_both", 99, "all", "first"),
+    ("delete_both", -1, "first"), ("delete_both", 0, "missing"), ("delete_both", 0, "last"),
 ]
 RULE = ("histories over %d symbolic operations (append/insert/delete by index and mnemonic/update/replace/"
         "item assignment with arrays and CurveItems/set_data with same, wider, truncated, renamed, duplicate-named "
@@ -50,7 +52,7 @@ ASSUMPTIONS = [
 EXHAUSTIVE = {"quick": "all histories up to length 3 over the 28-operation alphabet, on a fresh and on a read LASFile",
               "thorough": "all histories up to length 4 over the 28-operation alphabet, on a fresh and on a read LASFile"}
 REQUIRED = ["view_comparisons", "op_append", "op_insert", "op_delete_ix", "op_delete_mn", "op_update_ix", "op_update_mn",
-            "op_replace", "op_setitem_arr", "op_setitem_item", "op_set_data", "op_set_data_truncate", "op_inplace",
+            "op_replace", "op_update_both", "op_delete_both", "op_setitem_arr", "op_setitem_item", "op_set_data", "op_set_data_truncate", "op_inplace",
             "partner_comparisons"]
 SOFT_DEADLINE = {"quick": 90, "thorough": 1500}
 LEVEL_TEXT = ("Bounded-exhaustive exploration of curve edit histories; every view of the real LASFile is compared with an "
@@ -83,6 +85,11 @@ def grid(tier):
         for n in range(0, L):
             for pre in itertools.product(range(len(OPS)), repeat=n):
                 yield {"kind": "ext", "prefix": list(pre), "start": start}
+    setup_ops = [("append", "new"), ("append", "new"), ("append", "dup"), ("append", "new")]
+    for start in ("fresh", "read"):        # an index together with a mnemonic that names another (or no) curve
+        for both in [o for o in RANDOM_EXTRA if o[0] in ("update_both", "delete_both")]:
+            for k in (2, 4):
+                yield {"kind": "ops", "ops": [list(o) for o in setup_ops[:k]] + [list(both), ["append", "dup"], list(both)], "start": start}
 
 
 def n_random(tier):
@@ -205,6 +212,14 @@ class Run:
                 except IndexError:
                     expect_raise = True
                 las.delete_curve(ix=ix)
+            elif kind == "delete_both":           # an index and a mnemonic naming another curve: the index decides
+                ix = self.pos(op[1], n)
+                resolved = ("delete_both", _cls(ix, n), op[2])
+                try:
+                    m.pop(ix)
+                except IndexError:
+                    expect_raise = True
+                las.delete_curve(mnemonic=self.key_at(op[2]) or "NO_SUCH_CURVE", ix=ix)
             elif kind == "delete_mn":
                 key = self.key_at(op[1])
                 if key is None:
@@ -216,10 +231,12 @@ class Run:
                 else:
                     m.pop(ix)
                 las.delete_curve(mnemonic=key)
-            elif kind in ("update_ix", "update_mn"):
-                if kind == "update_ix":
+            elif kind in ("update_ix", "update_mn", "update_both"):
+                if kind in ("update_ix", "update_both"):
                     ix = self.pos(op[1], n)
                     kw = {"ix": ix}
+                    if kind == "update_both":      # documented: "The index takes precedence over the mnemonic"
+                        kw["mnemonic"] = self.key_at(op[3]) or "NO_SUCH_CURVE"
                     try:
                         tgt = m[ix]
                     except IndexError:
